@@ -550,6 +550,16 @@ func (a *aliveRec) NotifyAlive(n *ml.Node) error {
 	return nil
 }
 
+// vetoAlive is an application filter (AliveDelegate) that refuses every claim carrying one metadata value.
+type vetoAlive struct{ Meta string }
+
+func (v *vetoAlive) NotifyAlive(n *ml.Node) error {
+	if string(n.Meta) == v.Meta {
+		return errors.New("refused by the application's alive filter")
+	}
+	return nil
+}
+
 // ---------------------------------------------------------------- node factory
 
 type node struct {
